@@ -10,6 +10,10 @@ packet and the pacer's verdict) and the extracted model must predict
   appears / the builder stopped;
 * after every call: ack_at, largest_received_packet and the ack_queue of all three spaces.
 
+The same runs are projected a second time onto coq/model/RecvAck.v (suite "recvack", exec_recvack): one op per packet with
+its decryption verdict and the effects of its payload in the order they fired, then the recording tail in the order of the
+code; compared after every call: ack_at, largest_received_packet, expected_packet_number, ack_queue of the three spaces.
+
 Three suites: "natural" (both endpoints of a pair traced from the first datagram under generated loss /
 duplication / reordering / delay, application traffic), "puppet" (after a real handshake the peer is replaced by
 a key-holding puppet that sends packets with chosen packet numbers -- gaps, reordering, duplicates, corrupted
@@ -47,12 +51,19 @@ TRUSTED_BASE = [
     "LABELLED PEEKS compared with the model: ack_at, largest_received_packet, ack_queue of the three spaces; per-packet "
     "acceptance is read from the endpoint's own qlog packet_received events",
     "modelled, not verified: connection.py / recovery.py / packet.py acknowledgement logic as Gallina functions",
+    "coq/model/RecvAck.v (suite recvack): the per-packet decryption verdict is read from the endpoint's own qlog "
+    "(packet_received / packet_dropped key_unavailable | payload_decrypt_error), the reserved-bits close from the close "
+    "reason, the ORDER of the payload's effects from the number of frames the packet had logged when each labelled "
+    "_on_ack_delivery / discard_space call fired; the statement order of receive_datagram is read by "
+    "tools/gen/c12_recv_order.py (ast; trusted to recognise the statement forms it lists, fails closed on others)",
 ]
 ASSUMPTIONS = [
     "the caller fires handle_timer / datagrams_to_send no later than get_timer() (the property's own premise)",
     "packet numbers handed over by decrypt_packet lie in [0, 2^62) (checked on every op fed to the model)",
     "delivery handlers run only for frames that were written (C08; checked on every op fed to the model)",
     "the clock is monotone; the encoded ACK delay is in [0, 2^62)",
+    "composed theorems (creach): a decrypted packet number lies in [0, 2^62) -- the ONLY premise; in particular no premise "
+    "that acknowledged ACK frames were written (an unknown handler argument has no handler in the model)",
     "ack_timely: at most MAX_ACK_RANGES ranges are queued when the ACK is written; with docs/C12-fix-2.patch (CAP_ACK_NOW, "
     "PACING_LE probed from the source) this premise is discharged by the driver discipline 'a datagrams_to_send with room "
     "after every receive_datagram' (ack_timely_cap); otherwise / without the discipline ack_timely_cap_refuted applies",
@@ -899,6 +910,9 @@ class Run:
                     frames = [F.max_data(1 << 20)]
                 elif what == "err":
                     frames = [F.ping(), F.raw(b"\x40\x21")]
+                elif what == "cclose":
+                    # the peer closes: _close_begin -> DRAINING in the middle of the payload, the frame loop goes on
+                    frames = [F.ping(), F.connection_close(0), F.ping()]
                 else:
                     frames = [F.ping()]
                 data = puppet.build_packet("1rtt", frames, pn, reserved_bits=1 if what == "rsv" else 0)
@@ -1050,8 +1064,9 @@ def gen_puppet(rng, n):
                     off = max(0, hi + rng.choice([-6, -3, -2, -1, 0, 0, 1, 1, 1, 2, 3, 7]))
                 hi = max(hi, off)
                 what = rng.choices(["ping", "pad", "data", "bad", "err"], [60, 20, 10, 8, 2 if rng.random() < 0.2 else 0])[0]
-                if what == "err" and rng.random() < 0.4:
-                    what = "rsv"          # reserved header bits set: close(PROTOCOL_VIOLATION) right after decryption
+                if what == "err" and rng.random() < 0.6:
+                    # reserved header bits set: close(PROTOCOL_VIOLATION) right after decryption / CONNECTION_CLOSE from the peer
+                    what = rng.choice(["rsv", "rsv", "cclose"])
                 steps.append(["pkt", off, what])
             elif r < 0.60:
                 steps.append(["send"])
@@ -1104,7 +1119,8 @@ def boundary_puppet():
                                 ["adv", 2000], ["ack", 2, 0xFFFF, 1], ["send"], ["adv", 30000], ["pkt", 6, "rsv"], ["adv", 30000]]})
         cases.append({"kind": "puppet", "role": role, "seed": 18,
                       "steps": [["pkt", 1, "ping"], ["adv", 2000], ["ack", 1, 0xFFFF, 0], ["adv", 2000], ["pkt", 3, "ping"],
-                                ["adv", 500], ["ack", 0, 0xFFFF, 1], ["adv", 30000]]})
+                                ["adv", 500], ["ack", 0, 0xFFFF, 1], ["adv", 30000], ["pkt", 5, "ping"], ["pkt", 7, "cclose"],
+                                ["adv", 30000]]})
     return cases
 
 
